@@ -3,6 +3,8 @@
 //!   grow <len before the create> <old capacity> <new capacity>
 //!   within <len> <capacity> <1 if create_within_capacity succeeded else 0>     (at each growth boundary, before growing)
 //!   panic <len> <capacity>                                                       (the create that panicked)
+//!   full <len> <ecs_iter! visits or -1 if it panicked> <sum of the values seen> <get_all_slices_mut length or -1> <ecs_iter_destroy! visits or -1> <ecs_iter_borrow! visits or -1> <iter() items or -1>
+//!        (every iteration path over the archetype while it holds the maximum number of entities)
 //!   after <len> <capacity> <destroy ok> <create ok> <len after> <capacity after> <old handle rejected>
 //!   wcap <requested> <1 if with_capacity panicked else 0> <capacity or 0>
 #![forbid(unsafe_code)]
@@ -65,6 +67,17 @@ fn main() {
                 break;
             }
         }
+    }
+    // every iteration path over the full archetype (len == capacity == the limit)
+    {
+        let len = world.archetype::<ArchA>().len();
+        let mut sum: u64 = 0;
+        let it = catch_unwind(AssertUnwindSafe(|| { let mut k: i64 = 0; ecs_iter!(world, |c: &CompA| { k += 1; sum += c.0 as u64; }); k })).unwrap_or(-1);
+        let sl = catch_unwind(AssertUnwindSafe(|| { let s = world.archetype_mut::<ArchA>().get_all_slices_mut(); if s.comp_a.len() == s.entity.len() { s.comp_a.len() as i64 } else { -2 } })).unwrap_or(-1);
+        let itd = catch_unwind(AssertUnwindSafe(|| { let mut k: i64 = 0; ecs_iter_destroy!(world, |_c: &CompA| { k += 1; EcsStepDestroy::Continue }); k })).unwrap_or(-1);
+        let itb = catch_unwind(AssertUnwindSafe(|| { let mut k: i64 = 0; ecs_iter_borrow!(world, |_c: &CompA| { k += 1; }); k })).unwrap_or(-1);
+        let iti = catch_unwind(AssertUnwindSafe(|| world.archetype_mut::<ArchA>().iter().count() as i64)).unwrap_or(-1);
+        println!("full {} {} {} {} {} {} {}", len, it, sum, sl, itd, itb, iti);
     }
     // handles with large slot indices: still their own entity, through every key kind and the raw round trip
     for (i, e) in samples.iter() {
